@@ -634,6 +634,13 @@ pub fn run_check(def: &PropertyDef, tier: Tier, seed: u64) -> i32 {
     }
     let deadline = start + std::time::Duration::from_secs((def.timeout_s)(tier));
     let mut merged = Report::default();
+    // replay tier: saved regression inputs, each in its own process
+    let (reg_run, reg_failed) = run_regressions(id, &exe);
+    merged.notes.push(format!(
+        "regression replays executed: {} (failed: {})",
+        reg_run,
+        reg_failed.len()
+    ));
     let mut inconclusive: Vec<String> = vec![];
     for (i, mut child, out) in children {
         let status = loop {
@@ -694,6 +701,11 @@ pub fn run_check(def: &PropertyDef, tier: Tier, seed: u64) -> i32 {
         println!("VIOLATION property={} replay={}", id, path.display());
         println!("  check={} signature={} : {}", v.sub, v.signature, first_line(&v.message, 600));
     }
+    for (path, out) in &reg_failed {
+        new_violations += 1;
+        println!("VIOLATION property={} replay={}", id, path.display());
+        println!("  regression replay failed: {}", first_line(out, 600));
+    }
     let wall = start.elapsed().as_secs_f64();
     merged.inconclusive = inconclusive.clone();
     if let Err(e) =
@@ -723,6 +735,43 @@ pub fn run_check(def: &PropertyDef, tier: Tier, seed: u64) -> i32 {
     } else {
         0
     }
+}
+
+/// Run every saved regression input of a property (`regressions/<ID>/*.json`)
+/// through `sv replay` in a fresh process. Returns (executed, failures).
+fn run_regressions(id: &str, exe: &Path) -> (usize, Vec<(PathBuf, String)>) {
+    let dir = verif_dir().join("regressions").join(id);
+    let mut files: Vec<PathBuf> = std::fs::read_dir(&dir)
+        .map(|rd| {
+            rd.filter_map(|e| e.ok().map(|e| e.path()))
+                .filter(|p| p.extension().map(|x| x == "json").unwrap_or(false))
+                .collect()
+        })
+        .unwrap_or_default();
+    files.sort();
+    let mut failed = vec![];
+    for f in &files {
+        let out = std::process::Command::new(exe)
+            .arg("replay")
+            .arg(f)
+            .stdin(std::process::Stdio::null())
+            .output();
+        match out {
+            Ok(o) if o.status.code() == Some(0) => {}
+            Ok(o) => {
+                let text = String::from_utf8_lossy(&o.stdout).to_string();
+                let detail = text
+                    .lines()
+                    .find(|l| l.trim_start().starts_with("signature="))
+                    .unwrap_or("")
+                    .trim()
+                    .to_string();
+                failed.push((f.clone(), format!("exit {:?} {}", o.status.code(), detail)));
+            }
+            Err(e) => failed.push((f.clone(), format!("cannot run: {e}"))),
+        }
+    }
+    (files.len(), failed)
 }
 
 fn first_line(s: &str, max: usize) -> String {
